@@ -169,6 +169,8 @@ def py_eval(expr, env):
     t = Txn()
     t.amount, t.description, t.date = txn.get('amount'), txn.get('description'), txn.get('date')
     t.source, t.location = txn.get('source') or '', txn.get('location') or ''
+    t.month, t.year, t.day = (t.date.month, t.date.year, t.date.day) if t.date else (0, 0, 0)
+    t.weekday = t.date.weekday() if t.date else 0
     g = {'__builtins__': {}, 'True': True, 'False': False, 'None': None, 'len': len, 'sum': sum, 'any': any, 'all': all, 'next': next, 'min': min, 'max': max,
          'abs': abs, 'txn': t, 'amount': t.amount, 'description': t.description}
     for k, rows in ds.items():
